@@ -22,6 +22,44 @@ def blkOfJson (j : Json) : Except String (Blk Nat) := do
     | _ => do let n ← getStr srcJ "name"; pure (NameSrc.name n)
   pure ⟨t, src, v⟩
 
+/-- {"k": "named", "n": s} | {"k": "dict", "n": s | null} | {"k": "grid", "rows": n, "c0": "nocell" | "notstr" | {"s": s}}
+    | {"k": "opaque"} -/
+def repOfJson (j : Json) : Except String Rep := do
+  let k ← (← j.getObjVal? "k").getStr?
+  match k with
+  | "named" => do let n ← getStr j "n"; pure (.named n)
+  | "dict" => match j.getObjVal? "n" with
+    | .ok (.str n) => pure (.dict (some n.toList))
+    | _ => pure (.dict none)
+  | "grid" => do
+    let rows ← getNat j "rows"
+    let c0 ← match j.getObjVal? "c0" with
+      | .ok (.str "nocell") => pure Cell0.noCell
+      | .ok (.str "notstr") => pure Cell0.notStr
+      | .ok o => do let s ← getStr o "s"; pure (Cell0.str s)
+      | .error e => throw e
+    pure (.grid rows c0)
+  | "opaque" => pure .opaque
+  | _ => throw s!"unknown rep {k}"
+
+def rblkOfJson (j : Json) : Except String (RBlk Nat) := do
+  let t ← getBool j "t"
+  let v ← getNat j "val"
+  let rep ← repOfJson (← j.getObjVal? "rep")
+  let df := match j.getObjVal? "df" with
+    | .ok (.num n) => some n.mantissa.toNat
+    | _ => none
+  pure ⟨t, rep, v, df⟩
+
+def idxOfJson (j : Json) : Except String Idx :=
+  match j with
+  | .str "other" => pure .other
+  | _ => match j.getObjVal? "s", j.getObjVal? "i", j.getObjVal? "b" with
+    | .ok (.str n), _, _ => pure (.str n.toList)
+    | _, .ok i, _ => do let v ← i.getInt?; pure (.int v)
+    | _, _, .ok (.bool b) => pure (.bool b)
+    | _, _, _ => throw "bad idx"
+
 def resNat : Except Err Nat → Json
   | .ok n => nat n
   | .error e => exc (errName e)
@@ -36,6 +74,7 @@ def answer (s : State Nat) (q : Json) : Except String Json := do
   | "unique" => do let n ← getStr q "n"; pure (resNat (unique s n))
   | "getattr" => do let n ← getStr q "n"; pure (resNat (getattr s n))
   | "getitem_int" => do let i ← getInt q "i"; pure (resNat (getitemInt s i))
+  | "getitem" => do let ix ← idxOfJson (← q.getObjVal? "idx"); pure (resNat (getitem s ix))
   | _ => throw s!"unknown bundle query {kind}"
 
 def handleBundle (op : String) (j : Json) : Option (Except String Json) :=
@@ -43,6 +82,15 @@ def handleBundle (op : String) (j : Json) : Option (Except String Json) :=
   | "bundle" => some do
     let bs ← (← getArr j "blocks").mapM blkOfJson
     match ofBlocks bs with
+    | .error e => pure (exc (errName e))
+    | .ok s => do
+      let qs ← getArr j "queries"
+      let as ← qs.mapM (answer s)
+      pure (arr as)
+  | "bundle_supplied" => some do
+    let bs ← (← getArr j "blocks").mapM rblkOfJson
+    let asDf ← getBool j "as_df"
+    match ofSupplied asDf bs with
     | .error e => pure (exc (errName e))
     | .ok s => do
       let qs ← getArr j "queries"
